@@ -207,7 +207,8 @@ def _noop_self_copies(fnode):
                 if isinstance(v, ast.Call) and isinstance(v.func, ast.Attribute) and v.func.attr == "copy" and not v.args and not v.keywords:
                     src = v.func.value
                 elif isinstance(v, ast.Call) and isinstance(v.func, ast.Attribute) and isinstance(v.func.value, ast.Name) and v.func.value.id in ("np", "numpy") and \
-                        v.func.attr in ("array", "copy") and len(v.args) == 1 and not v.keywords:
+                        v.func.attr in ("array", "copy") and len(v.args) == 1 and not v.keywords and isinstance(v.args[0], ast.Name) and v.args[0].id in params:
+                    # only for a parameter (read as an array by the input-domain assumption): np.array(rows) of a local list is a conversion, not a copy
                     src = v.args[0]
                 if isinstance(src, ast.Name) and (src.id == n and n in params or src.id != n and n not in params):
                     cands.setdefault(n, []).append((st, src))
